@@ -168,7 +168,9 @@ class FixedGaussianNoise(Module):
             shape = p.shape if len(p.shape) == 1 else p.shape[:-1]
 
         if noise is not None:
-            return DiagLinearOperator(self._lower_bounded(noise))
+            if noise.dtype in (torch.float, torch.double, torch.half):  # the dtypes min_fixed_noise is defined for
+                noise = self._lower_bounded(noise)
+            return DiagLinearOperator(noise)
         elif shape[-1] == self.noise.shape[-1]:
             return DiagLinearOperator(self.noise)
         else:
